@@ -1,7 +1,9 @@
 (* Line-protocol driver around the extracted round-5 models (model.ml, from coq/ExtractC06.v).
    One command per input line, one result per output line. Tokens: decimal ints (any size), T/F, x<hex> byte strings.
      cap <major> <minor> <count> <n>           -> T / F : does a file of that version holding <count> points take <n> more (takes_more)
-     dimg <old> <k> <j> <op> ...               -> x<hex> : dest_image old ops k j;  op = T<size> | W<pos>:<x hex> *)
+     dimg <old> <k> <j> <op> ...               -> x<hex> : dest_image old ops k j;  op = T<size> | W<pos>:<x hex>
+     grw <off> <hb> <file>                     -> ok x<hex> | err ELaspy : guarded_rewrite (the in-place header rewrite at close)
+     aops <file> <ps> <tok> ...                -> ok x<hex> | err E | open : arun_ops with aclose_t; tok = T<x hex> | F<x hex> | C *)
 open Model
 
 let rec pos_of_int n = if n = 1 then XH else if n land 1 = 0 then XO (pos_of_int (n lsr 1)) else XI (pos_of_int (n lsr 1))
@@ -33,8 +35,46 @@ let op_of_tok t =
     | Some i -> DWrite (z_of_string (String.sub t 1 (i - 1)), bytes_of_tok (String.sub t (i + 1) (String.length t - i - 1)))
     | None -> failwith ("bad op " ^ t)
 
+(* ---------- round 6 ---------- *)
+let err_name = function
+  | EOverflow -> "EOverflow" | EIndex -> "EIndex" | ELaspy -> "ELaspy" | EValue -> "EValue"
+  | EShort -> "EShort" | EFuel -> "EFuel" | EStop -> "EStop" | EOther -> "EOther"
+let res f = function Ok a -> "ok " ^ f a | Err e -> "err " ^ err_name e
+let rec chunk n l =
+  if l = [] then [] else
+  let rec take k l acc = if k = 0 then (List.rev acc, l) else match l with [] -> (List.rev acc, []) | x :: r -> take (k - 1) r (x :: acc) in
+  let (a, r) = take n l [] in a :: chunk n r
+let recs_of_tok ps t = chunk ps (bytes_of_tok t)
+let billion = z_of_int 1000000000
+let rec string_of_posz zv =
+  match zv with
+  | Z0 -> "0"
+  | _ -> let (q, r) = Z.div_eucl zv billion in
+         let rs = (match r with Z0 -> 0 | Zpos p -> int_of_pos p | Zneg _ -> 0) in
+         (match q with Z0 -> string_of_int rs | _ -> string_of_posz q ^ Printf.sprintf "%09d" rs)
+let string_of_z = function Zneg p -> "-" ^ string_of_posz (Zpos p) | zv -> string_of_posz zv
+(* x -> bits of (float x * scale + offset) in IEEE binary64: the one float formula of header.grow (same three lines as ocaml/driver.ml) *)
+let i64_of_z zv = Int64.of_string ("0u" ^ string_of_z zv)
+let z_of_i64 i = z_of_string (Printf.sprintf "%Lu" i)
+let ap s o x =
+  let xf = float_of_string (string_of_z x) in
+  z_of_i64 (Int64.bits_of_float (xf *. Int64.float_of_bits (i64_of_z s) +. Int64.float_of_bits (i64_of_z o)))
+
+let aop_of_tok ps t =
+  if t = "C" then AoClose
+  else AoPoints (recs_of_tok ps (String.sub t 1 (String.length t - 1)), t.[0] = 'T')
+
 let handle line =
   match String.split_on_char ' ' line with
+  | ["grw"; off; hb; f] -> res tok_of_bytes (guarded_rewrite (z_of_string off) (bytes_of_tok hb) (bytes_of_tok f))
+  | "aops" :: file :: ps :: toks ->
+      (match aopen_f (bytes_of_tok file) with
+       | Err e -> "open-err:" ^ err_name e
+       | Ok s0 ->
+         let ps = int_of_string ps in
+         (match snd (arun_ops ap aclose_t s0 (List.map (aop_of_tok ps) (List.filter (fun s -> s <> "") toks))) with
+          | None -> "open"
+          | Some r -> res tok_of_bytes r))
   | ["cap"; maj; mnr; c; n] -> tok_of_bool (takes_more (z_of_string maj) (z_of_string mnr) (z_of_string c) (z_of_string n))
   | "dimg" :: old :: k :: j :: ops ->
       tok_of_bytes (dest_image (bytes_of_tok old) (List.map op_of_tok (List.filter (fun s -> s <> "") ops))
